@@ -493,7 +493,10 @@ class Check:
         xn, xbad = 0, []
         if self.lines:
             k = 150 if self.tier == "quick" else 1500
-            idx = sorted(self.rng.sample(range(len(self.lines)), min(k, len(self.lines))))
+            # cases whose wire form is very long (a whole 40 KB file image) are left to the extracted judge: as a Coq literal
+            # they cost minutes and gigabytes in coqc
+            pool = [i for i in range(len(self.lines)) if len(self.lines[i]) <= 60000] or list(range(len(self.lines)))
+            idx = sorted(self.rng.sample(pool, min(k, len(pool))))
             with BuildLock():
                 xn, xbad, xlog = coq_crosscheck(self.prop, [self.lines[i] for i in idx], [self.answers[i] for i in idx])
             if xbad:
